@@ -272,6 +272,66 @@ def rewrite_slice_closures(body, unit, log):
     return body
 
 
+def rewrite_for_array_literal(body, unit, log):
+    """R21: Verus has no specification for `core::array::IntoIter`. `for PAT in [E1, .., En] {` visits the n elements in
+    order, by value; it becomes
+        `let _arr21 = [E1, .., En]; let mut _k21: usize = 0; while _k21 < n { let PAT = _arr21[_k21]; _k21 += 1;`
+    (the increment comes before the body, so a `continue` in the body keeps its meaning). Loop clauses are inserted by the
+    template (`//@ loop k:`) as for any other loop."""
+    pat = re.compile(r'\bfor\s+')
+    out, i, n = '', 0, 0
+    while True:
+        m = pat.search(body, i)
+        if not m:
+            out += body[i:]
+            break
+        # find ` in [` at depth 0 after the pattern
+        j = m.end()
+        depth = 0
+        k = j
+        found = None
+        while k < len(body):
+            c = body[k]
+            if c in '([':
+                depth += 1
+            elif c in ')]':
+                depth -= 1
+            elif c == '{' and depth == 0:
+                break
+            elif depth == 0 and body.startswith(' in ', k):
+                found = k
+                break
+            k += 1
+        if found is None:
+            out += body[i:m.end()]
+            i = m.end()
+            continue
+        after = found + 4
+        t = after
+        while t < len(body) and body[t].isspace():
+            t += 1
+        if t >= len(body) or body[t] != '[':
+            out += body[i:m.end()]
+            i = m.end()
+            continue
+        close = extract.match_brace(body, t, '[', ']')
+        u = close + 1
+        while u < len(body) and body[u].isspace():
+            u += 1
+        if u >= len(body) or body[u] != '{':
+            out += body[i:m.end()]
+            i = m.end()
+            continue
+        elems = _split_top_commas(body[t + 1:close])
+        patv = body[j:found].strip()
+        out += body[i:m.start()] + f'let _arr21 = [{", ".join(elems)}]; let mut _k21: usize = 0; while _k21 < {len(elems)} {{ let {patv} = _arr21[_k21]; _k21 += 1;'
+        i = u + 1
+        n += 1
+    if n:
+        log.append(f"R21 x{n} in {unit['id']} (`for PAT in [array literal]` -> indexed while loop, increment before the body)")
+    return out
+
+
 def rewrite_closure0(body, unit, log):
     """R19 (only for units that declare `//@ closure0 <ReturnType>`): a zero-argument closure `|| EXPR` passed as the last
     argument of a call (EXPR free of parentheses, braces and semicolons: a place expression, possibly with `&` or `*`) is
@@ -287,6 +347,8 @@ def rewrite_closure0(body, unit, log):
 
 
 def rewrite_body(body, unit, log):
+    if re.search(r'\bfor\s+[^{;]*?\sin\s+\[', body):
+        body = rewrite_for_array_literal(body, unit, log)
     if unit.get('closure0'):
         body = rewrite_closure0(body, unit, log)
     if unit.get('closures'):
